@@ -251,6 +251,7 @@ def render_input(case, power_file="power.csv"):
             L.append("    %s = %s" % (k, fmt(v)))
     L.append("[Assignment]")
     L.append("    [[ByPosition]]")
+    runs = []
     for a in case['assignment']:
         if 'flowrate' in a:
             bc = "FLOWRATE=%s" % fmt(float(a['flowrate']))
@@ -261,7 +262,13 @@ def render_input(case, power_file="power.csv"):
         extra = ""
         if 'group' in a:
             extra = ", GROUP=%s" % fmt(float(a['group']))
-        L.append("        %s = %d, %d, %d, %s%s" % (a['type'], a['ring'], a['pos'], a['pos'], bc, extra))
+        key = (a['type'], a['ring'], bc, extra)
+        if case.get('merge_assignment') and runs and runs[-1][0] == key and runs[-1][2] + 1 == a['pos']:
+            runs[-1][2] = a['pos']       # one input line for a run of positions (ring, first, last)
+        else:
+            runs.append([key, a['pos'], a['pos']])
+    for (typ, ring, bc, extra), p0, p1 in runs:
+        L.append("        %s = %d, %d, %d, %s%s" % (typ, ring, p0, p1, bc, extra))
     return "\n".join(L) + "\n"
 
 
